@@ -40,6 +40,12 @@ theorem client_no_lock_left_behind : clientUnbalanced = [] := by decide
 theorem server_no_lock_left_behind : serverUnbalanced = [] := by decide
 theorem cache_no_lock_left_behind : cacheUnbalanced = [] := by decide
 
+/-- every use of the client's monitor table, its deferred-update state, `connected` and `activeEndpoint`
+    is made under the mutex that guards the field, directly or because every caller in the package holds it -/
+theorem client_guarded_fields_under_mutex : clientUnguarded = [] := by decide
+/-- every use of the server's monitor table is made under monitorMutex -/
+theorem server_guarded_fields_under_mutex : serverUnguarded = [] := by decide
+
 /-- Transact: lock, deferred unlock, execute, notify, commit: exactly the
     micro-steps of the model, under the mutex -/
 theorem transact_is_one_critical_section : transactShape = [1, 2, 3, 4, 5] := by decide
